@@ -237,6 +237,15 @@ def main(argv=None):
             if fn.startswith(prop + '-'):
                 os.unlink(os.path.join(rdir, fn))
     specs = mod.jobs(tier)
+    core = set(s_['name'] for s_ in specs)
+    if tier == 'thorough':
+        # the thorough tier always contains the quick tier (the jobs measured to complete on every run); jobs that exist only
+        # in the thorough list are the deepening: if one of them does not finish within its limit it is reported under
+        # not_completed (it is then simply not part of what this run explored) instead of failing the whole check
+        tnames = set(s_['name'] for s_ in specs)
+        qspecs = [s_ for s_ in mod.jobs('quick') if s_['name'] not in tnames]
+        core = set(s_['name'] for s_ in mod.jobs('quick'))
+        specs = qspecs + specs
     results = run_jobs(prop, specs, tier, seed, active_regions, a.nproc, a.only)
 
     final = [r for r in results if not r.get('superseded')]
@@ -246,10 +255,18 @@ def main(argv=None):
     replays_done = 0
     skipped_replays = 0
     unreplayed_jobs = []
+    not_completed = []
     for r in final:
+        deepening = tier == 'thorough' and r['job'] not in core
+        if r['status'] in ('timeout', 'crashed') and deepening:
+            not_completed.append('%s: %s after %s s' % (r['job'], r['status'], r.get('wall_s')))
+            continue
         if r['status'] != 'done':
             harness_errors.append('%s: %s: %s' % (r['job'], r['status'], r.get('error', '')[:600]))
             continue
+        if deepening and r.get('inconclusive') and not r.get('violations'):
+            not_completed.append('%s: %d obligations undecided within the solver time limit' % (r['job'], len(r['inconclusive'])))
+            r['inconclusive'] = []
         if not r.get('obligations'):
             # a job that decided nothing must not count as a pass (guards against a harness that returns early)
             harness_errors.append('%s: the job completed without a single obligation (vacuous)' % r['job'])
@@ -300,13 +317,16 @@ def main(argv=None):
 
     if not a.no_evidence:
         write_evidence(prop, tier, seed, mod, results, final, violations, inconclusive, harness_errors, known_lines,
-                       replays_done, time.time() - t0)
+                       replays_done, time.time() - t0, not_completed)
     for l in known_lines:
         print(l)
     for l in vio_lines:
         print(l)
     nob = sum(r.get('obligations', 0) for r in final)
     ndis = sum(r.get('discharged', 0) for r in final)
+    if not_completed:
+        print('note: %d deepening job(s) of the thorough tier did not complete and are NOT part of what this run explored: %s' %
+              (len(not_completed), '; '.join(not_completed)[:1500]))
     if skipped_replays:
         print('note: %d further counterexamples were not replayed (replay budget); jobs with unreplayed counterexamples only: %s' %
               (skipped_replays, ', '.join(unreplayed_jobs[:20]) or '-'))
@@ -324,7 +344,7 @@ def main(argv=None):
 
 
 def write_evidence(prop, tier, seed, mod, results, final, violations, inconclusive, harness_errors, known_lines,
-                   replays_done, wall):
+                   replays_done, wall, not_completed=()):
     done = [r for r in final if r['status'] == 'done']
     queries = sum(r.get('queries', 0) for r in done)
     nontrivial = sum(r.get('nontrivial_distinct_queries', r.get('queries', 0)) for r in done)
@@ -353,6 +373,7 @@ def write_evidence(prop, tier, seed, mod, results, final, violations, inconclusi
         'discharged': sum(r.get('discharged', 0) for r in done),
         'inconclusive': inconclusive[:50],
         'harness_errors': harness_errors[:20],
+        'not_completed': list(not_completed)[:50],
         'exhaustive': False,
         'functions_encoded': functions,
         'bounds': meta.get('bounds', {}).get(tier, meta.get('bounds', '')),
